@@ -5,7 +5,6 @@
 import CnvVerif.Model.Call
 import CnvVerif.Lemmas.Call
 import CnvVerif.Lemmas.CallReal
-import CnvVerif.Lemmas.SrcBaf
 namespace CnvVerif.C02
 open CnvVerif
 
@@ -92,9 +91,5 @@ theorem rescaled_baf_can_exceed_one : callRescaleBaf (3/5) (9/10) = 7/6 := by de
 /-! non-vacuity -/
 example : thresholdCall Generated.DEFAULT_THRESHOLDS 2 1 (some (1/10)) 1 = 1 := by decide +kernel
 example : allelic 3 3 (some (3/4)) = (some 2, some 1) := by decide +kernel
-
-/-- the model's BAF rescale IS the expression `rescale_baf` computes (normal BAF 0.5) -/
-theorem rescale_baf_is_the_source (p b : Rat) :
-    callRescaleBaf p b = Generated.src_rescale_baf p b (1/2) := Src.callRescaleBaf_is_source p b
 
 end CnvVerif.C02
